@@ -20,6 +20,7 @@ from core.engine import Property, F
 ID_COLS = {"environment_id": "eid", "learner_id": "lid", "evaluator_id": "vid"}
 P15_SIG = "fin:group-with-duplicate-level-masking-missing-level-kept"
 F2_SIG = "grouping-by-sorted-adjacency-misgroups-partially-ordered-values"
+F3_SIG = "fin:length-drop-after-pairing-leaves-incomplete-group"
 
 
 # ----------------------------------------------------------------------------- values
@@ -114,7 +115,17 @@ def apply_step(res, st):
         kw = {k: (dv(v) if not isinstance(v, list) else [dv(x) for x in v]) for k, v in st["kw"]}
         return res.where(**kw), None
     if op == "where_best":
-        return res.where_best(l=st["l"], p=st["p"], n=st.get("n")), None
+        kw = {}
+        if "full_l" in st:
+            kw["full_l"] = st["full_l"]
+        if "full_p" in st:
+            kw["full_p"] = st["full_p"]
+        return res.where_best(l=st["l"], p=st["p"], n=st.get("n"), **kw), None
+    if op == "raw_contrast":
+        l1 = [dv(v) for v in st["l1"]] if isinstance(st["l"], (list, tuple)) else dv(st["l1"])
+        l2 = [dv(v) for v in st["l2"]] if isinstance(st["l"], (list, tuple)) else dv(st["l2"])
+        t = res.raw_contrast(l1, l2, x=st["x"], y="reward", l=st["l"], p=st["p"], span=st.get("span"))
+        return None, t
     if op == "raw_learners":
         t = res.raw_learners(x=st["x"], y=st.get("y", "reward"), l=st["l"], p=st.get("p"), span=st.get("span"))
         return None, t
@@ -207,15 +218,16 @@ class Direct:
     def key(self, cols, t):
         return tuple(self.cell(c, t) for c in aslist(cols))
 
-    def kept_by_pairing(self, l, p, legacy=False):
-        """evaluations in p-groups that have exactly one evaluation for every compared level"""
+    def kept_by_pairing(self, l, p, legacy=False, among=None):
+        """evaluations (among `among`, default all) in p-groups that have exactly one evaluation for every compared level"""
+        evals = self.evals if among is None else among
         levels = []
-        for t in self.evals:
+        for t in evals:
             k = self.key(l, t)
             if not any(k == x for x in levels):
                 levels.append(k)
         groups = []
-        for t in self.evals:
+        for t in evals:
             k = self.key(p, t)
             for g in groups:
                 if g[0] == k:
@@ -233,13 +245,19 @@ class Direct:
                 kept += g
         return set(kept), levels, groups
 
-    def fin(self, n, l, p, legacy=False):
-        """-> OrderedDict triple -> rows that where_fin(n,l,p) must leave"""
+    def fin(self, n, l, p, legacy=False, seq=False):
+        """-> OrderedDict triple -> rows that where_fin(n,l,p) must leave.
+        Integer n: the documented contract ("a Result where an l exists for every p and all p have n interactions")
+        is read jointly: evaluations shorter than n go first, then the complete pairing groups of the rest stay.
+        seq=True: the other order (pairing on everything, short evaluations dropped afterwards) = finding C18-F3."""
+        pool = self.evals
+        if isinstance(n, int) and not isinstance(n, bool) and n and not seq:
+            pool = OrderedDict((t, rows) for t, rows in self.evals.items() if len(rows) >= n)
         if l or p:
-            kept, _, _ = self.kept_by_pairing(l, p, legacy)
+            kept, _, _ = self.kept_by_pairing(l, p, legacy, among=pool)
         else:
-            kept = set(self.evals)
-        evs = OrderedDict((t, rows) for t, rows in self.evals.items() if t in kept)
+            kept = set(pool)
+        evs = OrderedDict((t, rows) for t, rows in pool.items() if t in kept)
         if n == "min":
             if evs:
                 m = min(len(r) for r in evs.values())
@@ -455,33 +473,67 @@ def ask(driver, req):
     raise RuntimeError("driver died")      # hopelessly out of step: let the engine restart it
 
 
-MAX_MODEL_ROWS = 600     # the executable model is quadratic in the table size; larger states are checked by (B) only
+MAX_MODEL_ROWS = 6000    # (the driver answers a 6000-row state in ~1.5 s; nothing generated is larger)
 
 
 class Coder:
-    """numbers distinct python values (by ==/hash) 0,1,2,…"""
+    """per column: numbers the distinct python values (by ==/hash); order-preserving (rank in Python's sort order)
+    when the column's values are mutually orderable, so that the model can mirror iteration over sorted groups"""
 
     def __init__(self):
-        self.d = {}
-        self.unhashable = []
+        self.cols = {}          # column name -> (dict value->code | None, list of (value, code) for unhashables, sortable)
 
-    def code(self, v):
+    def learn(self, snapshot):
+        for tb in ("env", "lrn", "val"):
+            cols, rows = snapshot[tb]
+            for j, c in enumerate(cols):
+                if c in self.cols:
+                    continue
+                vals = []
+                for r in rows:
+                    if not any(r[j] == u and type(r[j]) is type(u) or r[j] == u for u in vals):
+                        vals.append(r[j])
+                homog = all(isinstance(v, (int, float)) for v in vals) or all(isinstance(v, str) for v in vals)
+                try:
+                    if not homog:
+                        raise TypeError
+                    order = sorted(vals)
+                    sortable = True
+                except TypeError:
+                    order, sortable = vals, False
+                d, un = {}, []
+                for i, v in enumerate(order):
+                    try:
+                        d.setdefault(v, i)
+                    except TypeError:
+                        un.append((v, i))
+                self.cols[c] = (d, un, sortable)
+
+    def sortable(self, c):
+        return c in ID_COLS or (c in self.cols and self.cols[c][2])
+
+    def code(self, c, v):
+        d, un, _ = self.cols.setdefault(c, ({}, [], False))
         try:
-            return self.d.setdefault(v, len(self.d))
+            if v in d:
+                return d[v]
         except TypeError:
-            for i, (u, c) in enumerate(self.unhashable):
+            for u, k in un:
                 if u == v:
-                    return c
-            c = 10 ** 6 + len(self.unhashable)
-            self.unhashable.append((v, c))
-            return c
+                    return k
+            k = 10 ** 6 + len(un) + len(d)
+            un.append((v, k))
+            return k
+        k = 10 ** 6 + len(un) + len(d)
+        d[v] = k
+        return k
 
 
 def model_result(s, coder, ycol="reward"):
     def ptab(tb, idc):
         cols, rows = s[tb]
         k = cols.index(idc)
-        return [[r[k], [coder.code(x) for j, x in enumerate(r) if j != k]] for r in rows]
+        return [[r[k], [coder.code(cols[j], x) for j, x in enumerate(r) if j != k]] for r in rows]
     icols, irows = s["int"]
     ix = [icols.index(c) for c in ("environment_id", "learner_id", "evaluator_id", "index", ycol)]
     return {"envs": ptab("env", "environment_id"), "lrns": ptab("lrn", "learner_id"), "evals": ptab("val", "evaluator_id"),
@@ -530,11 +582,21 @@ class C18(Property):
             "duplicate parameter values; value types str/int/None/bool/float/''/tuple and, rarely, frozenset), 1-3 learners, "
             "1-2 evaluators, missing triples, ragged lengths 1-7, rewards small ints (also 0/1, bool, dyadic floats), rows "
             "sometimes handed to the constructor in reverse order; chains of 1-4 steps of where_fin (n in None/'min'/0/k, l and p ids, "
-            "parameter columns, lists, swapped roles), where, where_best, raw_learners (x index/parameter columns, span None/0..6, "
+            "parameter columns, lists, swapped roles), where, where_best (l,p,n,full_l,full_p), raw_contrast (two labels of a learner column, x index / "
+            "environment columns, p environment / (environment,evaluator) / an environment column, all spans), raw_learners (x index/parameter columns, span None/0..6, "
             "p None or given); plus direct moving_average calls (all spans, weights None/'exp'/list incl. zeros). Every step is "
             "checked from the real code's own pre-state. Non-trivial = a where_fin step that removed or cut something but kept "
             "something, or a raw_learners table with >= 2 values, or a moving_average over >= 3 values; distinct by canonical JSON")
     trusted_base = [
+        "where_best: the model walks the full_l levels of a cell in ascending order of order-preserving codes (the harness ranks each "
+        "column's values by Python's sort); (A) for where_best is applied when the key columns are homogeneous (all numbers or all "
+        "strings) and either no exact tie for the best mean exists or every evaluation mean is over a power-of-two number of integer "
+        "rewards (then exact ties are float ties); (B) is tie-tolerant and always applied",
+        "raw_contrast: the order of the pairs under one x follows a Python set and is compared as a multiset; (B) only where each label "
+        "has one evaluation per pairing value (otherwise the card='S' dict overwrites and nothing is documented); x labels 'b-a' are "
+        "rebuilt by the harness from the model's key pair",
+        "binary64: integers below 2^53 scaled by 2^-k, their sums and differences are exact (window_sum_dyadic bounds every running sum), "
+        "one correctly rounded division per reported average",
         "Table.where / Table.groupby / View are modelled by their list meaning (filter, maximal runs, selection by row number); "
         "their indexed implementation is C17's subject",
         "parameter values cross to the model as integer codes of their Python-equality classes (the code only hashes/compares them); "
@@ -551,6 +613,9 @@ class C18(Property):
         "where_fin(n=k) is read as DESIGN §C18 does: pairing first, then evaluations shorter than k are dropped (which may leave a group incomplete)",
     ]
     partial_theorems = {
+        "where_fin_length_drop_counterexample": "finding C18-F3: as the code is, where_fin(n=k,l,p) pairs first and drops short evaluations "
+                                                "afterwards (filter_fin_eq_spec describes exactly that, the sequential whereFinS); the documented joint "
+                                                "contract whereFinJ is met by the order of fixes/C18-length-drop-before-pairing.diff (filter_fin_d_eq_spec)",
         "group_p_spec_partial": "the unchanged _group_p (len(group) == n_levels) meets the spec only if no level occurs twice inside a "
                                 "p-group; witness group_p_duplicate_counterexample (= finding C18-F1). All other theorems are about the "
                                 "code with fixes/C18-group-p-duplicate-level.diff applied (model parameter fixed=true) and are at full strength",
@@ -588,7 +653,7 @@ class C18(Property):
         lrns = [[i] + [self.gen_value(rng, kinds[c]) for c in lrn_cols] for i in lids]
         vals = [[i] + [self.gen_value(rng, kinds[c]) for c in val_cols] for i in vids]
         present = rng.choice([1.0, 1.0, 0.92, 0.85, 0.7, 0.5])
-        base = rng.choice([1, 2, 3, 3, 4, 5]) if not big else rng.choice([2, 3, 6, 12, 25])
+        base = rng.choice([1, 2, 3, 3, 4, 5]) if not big else rng.choice([2, 3, 6, 12, 25, 50])
         ragged = rng.choice([0.0, 0.3, 0.6])
         evals = []
         for e in eids:
@@ -672,7 +737,14 @@ class C18(Property):
             return {"op": "where", "kw": [[col, arg]], "tbl": tb}
         l = rng.choice((case["lrn_cols"] or ["learner_id"]) + ["learner_id"])
         p = rng.choice((case["env_cols"] or ["environment_id"]) + ["environment_id"])
-        return {"op": "where_best", "l": l, "p": p, "n": rng.choice([None, None, 1, 2])}
+        st = {"op": "where_best", "l": l, "p": p, "n": rng.choice([None, None, 1, 1, 2, 4])}
+        if rng.chance(0.35):
+            st["full_p"] = rng.choice([["environment_id", "evaluator_id"], ["environment_id"]])
+        if rng.chance(0.15):
+            st["full_l"] = rng.choice([["learner_id"], ["learner_id", "evaluator_id"]])
+            if st["full_l"] == ["learner_id", "evaluator_id"]:
+                st["full_p"] = "environment_id"
+        return st
 
     def gen_raw(self, rng, case):
         l, p = self.gen_lp(rng, case, for_raw=True)
@@ -685,6 +757,40 @@ class C18(Property):
             st["y"] = "z"
         if rng.chance(0.15) and any(isinstance(st[k], list) for k in ("l", "p", "x")):
             st["as_tuple"] = True
+        return st
+
+    def gen_contrast(self, rng, case):
+        """two labels of one learner column (or learner_id) contrasted over environments"""
+        lc = case["lrn_cols"]
+        pool = ["learner_id", "learner_id"] + list(lc) + ([list(lc)] if len(lc) > 1 else [])
+        l = rng.choice(pool)
+        cols = ["learner_id"] + list(lc)
+
+        def lab(row):
+            return [row[cols.index(c)] for c in aslist(l)]
+        labs = []
+        for r in case["lrns"]:
+            v = lab(r)
+            if all(isinstance(a, (int, str)) and not isinstance(a, bool) for a in v) and v not in labs:
+                labs.append(v)
+        if not labs:
+            return None
+        a = rng.choice(labs)
+        b = rng.choice(labs) if (len(labs) < 2 or rng.chance(0.06)) else rng.choice([u for u in labs if u != a])
+        if rng.chance(0.05):
+            b = [(99 if isinstance(u, int) else "zz") for u in b]
+        nv = len(set(e[2] for e in case["evals"]))
+        p = "environment_id" if (nv <= 1 or rng.chance(0.3)) else ["environment_id", "evaluator_id"]
+        xs = ["index", "index", "environment_id"]
+        ec = case["env_cols"]
+        if ec:
+            xs.append(ec[0])
+            if rng.chance(0.3):
+                p = ec[0]           # several environments per pairing value: entries overwrite / products
+                xs = ["index", ec[0]]
+        lens = sorted(len(e[3]) for e in case["evals"]) or [3]
+        st = {"op": "raw_contrast", "l": l, "l1": (a if isinstance(l, list) else a[0]), "l2": (b if isinstance(l, list) else b[0]),
+              "x": rng.choice(xs), "p": p, "span": rng.choice([None, None, 1, 2, 3, 0, lens[0], lens[-1] + 1])}
         return st
 
     def gen_ma(self, rng, boundary=False):
@@ -713,6 +819,12 @@ class C18(Property):
         k = rng.choice([1, 1, 2, 2, 3, 4])
         for _ in range(k):
             steps.append(self.gen_step(rng, case))
+        if rng.chance(0.25):
+            st = self.gen_contrast(rng, case)
+            if st and rng.chance(0.6):
+                steps.insert(0, st)         # on the fresh Result (raw_contrast does not change the Result)
+            elif st:
+                steps.append(st)
         if rng.chance(0.55):
             steps.append(self.gen_raw(rng, case))
             if rng.chance(0.15):
@@ -750,6 +862,20 @@ class C18(Property):
                        steps=[{"op": "where_fin", "n": None, "l": "learner_id", "p": "data"}]))
         cs.append(dict(fsb, evals=[[0, 0, 0, [1]], [1, 0, 0, [1, 3]], [2, 0, 0, [5, 2]]],
                        steps=[{"op": "raw_learners", "x": "index", "l": "data", "p": None, "span": None}]))
+        # where_best: a tie for the best mean (the later level wins), n cutting the comparison, two cells
+        wb = dict(base, vals=[[0]], lrns=[[0, "f"], [1, "f"], [2, "g"]],
+                  evals=[[e, l, 0, ys] for e in (0, 1, 2) for l, ys in ((0, [1, 1, 0, 0]), (1, [0, 1, 1, 0]), (2, [3, 0, 0, 0]))])
+        cs.append(dict(wb, steps=[dict({"op": "where_best", "l": "family", "p": "environment_id", "n": n}, fresh=True) for n in (None, 1, 2, 4)] +
+                                 [{"op": "where_best", "l": "family", "p": "data", "n": None, "fresh": True},
+                                  {"op": "raw_contrast", "l": "learner_id", "l1": 0, "l2": 2, "x": "index", "p": "environment_id", "span": 2, "fresh": True},
+                                  {"op": "raw_contrast", "l": "family", "l1": "g", "l2": "f", "x": "environment_id", "p": "environment_id", "span": None, "fresh": True},
+                                  {"op": "raw_contrast", "l": "learner_id", "l1": 0, "l2": 1, "x": "data", "p": "data", "span": None, "fresh": True},
+                                  {"op": "raw_contrast", "l": "learner_id", "l1": 1, "l2": 1, "x": "index", "p": "environment_id", "span": None, "fresh": True}]))
+        # C18-F3: a short evaluation inside an otherwise complete group; a short duplicate inside an oversized group
+        cs.append(dict(base, vals=[[0]], evals=[[0, 0, 0, [1, 1]], [0, 1, 0, [1]], [1, 0, 0, [1, 1]], [1, 1, 0, [1, 1]]],
+                       steps=[{"op": "where_fin", "n": 2, "l": "learner_id", "p": "environment_id"}]))
+        cs.append(dict(base, vals=[[0]], evals=[[0, 0, 0, [1, 1, 2, 3]], [1, 0, 0, [4]], [0, 1, 0, [1, 1, 2, 3]]],
+                       steps=[{"op": "where_fin", "n": 4, "l": "learner_id", "p": "data"}]))
         # complete / equal lengths / ragged / empty
         full = [[e, l, 0, [e + l + i for i in range(3 + (e == 1))]] for e in (0, 1, 2) for l in (0, 1)]
         for n in (None, "min", 0, 1, 3, 4, 5):
@@ -811,13 +937,21 @@ class C18(Property):
             nfails0 = len(fails)
             tags.append("op:" + op)
             pre = rec["pre"]
+            coder.learn(pre)
+            best_a_ok = False
             if "err" in rec:
                 tags.append("err:%s:%s" % (op, rec["err"]))
+            if op == "where_best":
+                nt, best_a_ok = self.check_best(st, rec, fails, tags, coder)
+                nontrivial = nontrivial or nt
             if op == "where_fin":
                 nt = self.check_fin(st, rec, fails, tags)
                 nontrivial = nontrivial or nt
             elif op == "raw_learners":
                 nt = self.check_raw(st, rec, fails, tags)
+                nontrivial = nontrivial or nt
+            elif op == "raw_contrast":
+                nt = self.check_contrast(st, rec, fails, tags, coder)
                 nontrivial = nontrivial or nt
             elif "post" in rec:
                 check_tables(rec["post"], pre, fails, op, False)
@@ -830,12 +964,16 @@ class C18(Property):
                 fails.append(F("B", "where(%s) raised %s: %s" % (st["kw"], rec["err"], rec.get("errmsg")), "where:raises-" + rec["err"]))
             impl_out.append({"post": snap_json(rec["post"])} if "post" in rec else ({"table": json.loads(json.dumps(rec.get("table"), default=str))} if "table" in rec else {"err": rec["err"]}))
             # (A)
-            undefined = op == "raw_learners" and st["x"] == "index" and st.get("span") == 0
+            undefined = op in ("raw_learners", "raw_contrast") and st["x"] == "index" and st.get("span") == 0
+            if op == "raw_contrast" and "contrast:mixed-x-labels" in tags[-3:]:
+                undefined = True
             f2_here = any(f["sig"] == F2_SIG for f in fails[nfails0:])   # the model groups by equality; (B) reports this step
             small = len(pre["int"][1]) <= MAX_MODEL_ROWS
             if not small:
                 tags.append("A:skipped-large-state")
-            if driver is not None and op in ("where_fin", "where", "raw_learners") and int_ok(pre, st.get("y", "reward")) and not undefined and not f2_here and small:
+            if op == "where_best" and not best_a_ok:
+                model_out.append(None)
+            elif driver is not None and op in ("where_fin", "where", "raw_learners", "where_best", "raw_contrast") and int_ok(pre, st.get("y", "reward")) and not undefined and not f2_here and small:
                 model_out.append(self.correspond(st, rec, driver, coder, fails, tags))
             else:
                 model_out.append(None)
@@ -858,7 +996,17 @@ class C18(Property):
         if got is None:
             return False
         ie, il, iv = (post["int"][0].index(c) for c in ("environment_id", "learner_id", "evaluator_id"))
-        if got != exp:
+        if got != exp and (l or p) and isinstance(n, int) and n and got == d.fin(n, l, p, seq=True):
+            tags.append("f3")
+            dg = Direct(post)
+            _, levels, groups = dg.kept_by_pairing(l, p)
+            bad = [(k, g) for k, g in groups if not all(sum(1 for t in g if dg.key(l, t) == lv) == 1 for lv in levels)]
+            what = ("the result keeps the %s-group %r with evaluations %s, which lacks a level (levels in the result %s)"
+                    % (p, bad[0][0], bad[0][1], levels)) if bad else \
+                   ("it returns the evaluations %s; with the short evaluations dropped first the complete groups are %s" % (list(got), list(exp)))
+            fails.append(F("B", "where_fin(n=%r,l=%r,p=%r) pairs first and drops the evaluations shorter than %r afterwards: %s"
+                           % (n, l, p, n, what), F3_SIG))
+        elif got != exp:
             legacy = d.fin(n, l, p, legacy=True)
             sim = [d.fin_sorted_adjacent(n, l, p, rule) for rule in (True, False)] if ((l or p) and d.col_has_partial_order(p)) else []
             if (l or p) and got != legacy and any(got == e for e in sim):
@@ -897,6 +1045,150 @@ class C18(Property):
         if not exp:
             tags.append("fin:nothing-left")
         return bool(exp) and bool(removed or cut)
+
+    # ---- (B) where_best: in every (p,l) cell of the complete full_p groups exactly the evaluations of ONE full_l level
+    #      stay, and that level's mean (of the evaluations' means over their first n rewards) is not exceeded
+    def check_best(self, st, rec, fails, tags, coder):
+        pre = rec["pre"]
+        l, p, n = st["l"], st["p"], st.get("n")
+        fl, fp = st.get("full_l", "learner_id"), st.get("full_p", "environment_id")
+        call = "where_best(l=%r,p=%r,n=%r,full_l=%r,full_p=%r)" % (l, p, n, fl, fp)
+        d = Direct(pre)
+        fin = d.fin(None, fl, fp)
+        if "err" in rec:
+            if rec["err"] == "StatisticsError" and n == 0:
+                return False, False
+            fails.append(F("B", "%s raised %s: %s" % (call, rec["err"], rec.get("errmsg")), "best:raises-" + rec["err"]))
+            return False, False
+        post = rec["post"]
+        check_tables(post, pre, fails, "best", True)
+        if not refs_present(post):
+            return False, False
+        got = Direct(post).evals
+        cells = OrderedDict()
+        for t, rows in fin.items():
+            ys = [Fraction(r[d.iy]) for r in rows][:n]
+            cells.setdefault((d.key(p, t), d.key(l, t)), OrderedDict()).setdefault(d.key(fl, t), []).append((t, sum(ys) / len(ys)))
+        ties = False
+        for ck, levels in cells.items():
+            score = {f: sum(s for _, s in evs) / len(evs) for f, evs in levels.items()}
+            best = max(score.values())
+            ties = ties or sum(1 for v in score.values() if v == best) > 1
+            kept_levels = [f for f, evs in levels.items() if any(t in got for t, _ in evs)]
+            partial = [f for f, evs in levels.items() if any(t in got for t, _ in evs) and not all(t in got for t, _ in evs)]
+            if len(kept_levels) != 1 or partial:
+                fails.append(F("B", "%s leaves the levels %s (partially: %s) in the cell (p,l)=%s; exactly one %s level must stay, entirely (scores %s)"
+                               % (call, kept_levels, partial, ck, fl, {str(k): str(v) for k, v in score.items()}), "best:not-exactly-one-level-per-cell"))
+            elif score[kept_levels[0]] != best:
+                fails.append(F("B", "%s keeps the %s level %s with mean %s in the cell (p,l)=%s although level(s) %s have the best mean %s"
+                               % (call, fl, kept_levels[0], score[kept_levels[0]], ck, [f for f in score if score[f] == best], best), "best:kept-level-not-best"))
+        allowed = set(t for levels in cells.values() for evs in levels.values() for t, _ in evs)
+        stray = [t for t in got if t not in allowed]
+        if stray:
+            fails.append(F("B", "%s keeps evaluations %s of %s groups that are not complete over %s" % (call, stray, fp, fl), "best:incomplete-full_p-group-kept"))
+        for t, rows in got.items():
+            if t in fin and rows != fin[t]:
+                fails.append(F("B", "%s altered/cut the rows of evaluation %s" % (call, t), "best:rows-changed"))
+                break
+        tags.append("best:cells=%s" % min(len(cells), 3))
+        if ties:
+            tags.append("best:ties")
+        # (A) is meaningful only when the code walks the levels in a reproducible order (sortable key columns) and exact
+        # ties are float ties too (every evaluation mean is over a power-of-two number of integer rewards)
+        cols = [c for c in aslist(l) + aslist(p) + aslist(fl) if c != "full_name"]
+        sortable = all(coder.sortable(c) for c in cols) and "full_name" not in aslist(l) + aslist(p) + aslist(fl)
+        pow2 = all((len(rows[:n]) & (len(rows[:n]) - 1)) == 0 for rows in fin.values())
+        a_ok = sortable and (pow2 or not ties)
+        if not a_ok:
+            tags.append("best:A-skipped")
+        return len(cells) > 0 and len(fin) > len(got) > 0, a_ok
+
+    # ---- (B) raw_contrast: for every pairing value that both labels have, the pairs (value under l1, value under l2)
+    #      per x, values computed directly; only where each label has ONE evaluation per pairing value (otherwise the
+    #      card='S' dict silently overwrites and the documentation does not say what is reported)
+    def contrast_expected(self, st, pre):
+        d = Direct(pre)
+        l, x, p, span = st["l"], st["x"], st["p"], st.get("span")
+        lcols = aslist(l)
+        v1 = [dv(v) for v in st["l1"]] if isinstance(l, (list, tuple)) else [dv(st["l1"])]
+        v2 = [dv(v) for v in st["l2"]] if isinstance(l, (list, tuple)) else [dv(st["l2"])]
+        if v1 == v2:
+            return "raise", d
+        if not d.irows:
+            return "raise", d
+        sides = []
+        for vs in (v1, v2):
+            evs = OrderedDict((t, rows) for t, rows in d.evals.items() if all(d.cell(c, t) == v for c, v in zip(lcols, vs)))
+            keys = [d.key(p, t) for t in evs]
+            if any(keys.count(k) > 1 for k in keys):
+                return "unpaired", d
+            sides.append(OrderedDict((d.key(p, t), (t, rows)) for t, rows in evs.items()))
+        out = {}
+        for k in sides[0]:
+            if k not in sides[1]:
+                continue
+            (t1, r1), (t2, r2) = sides[0][k], sides[1][k]
+            y1, y2 = [r[d.iy] for r in r1], [r[d.iy] for r in r2]
+            if x == "index":
+                for i, (a, b) in enumerate(zip(r1, r2)):
+                    s1 = None if (span is None or span >= len(y1)) else span
+                    s2 = None if (span is None or span >= len(y2)) else span
+                    out.setdefault(a[d.ii], []).append((d.window_mean(y1, s1, i), d.window_mean(y2, s2, i)))
+            else:
+                x1, x2 = d.rawkey(x, t1), d.rawkey(x, t2)
+                lab = x1 if x1 == x2 else "%s-%s" % (x2, x1)
+                sp = None if not span else span
+                out.setdefault(lab, []).append((d.window_mean(y1, sp, len(y1) - 1), d.window_mean(y2, sp, len(y2) - 1)))
+        return (out if out else "raise"), d
+
+    def contrast_got(self, rec):
+        cols, data = rec["table"]
+        xs, ys = data[0], data[1]
+        return {xv: list(pairs) for xv, pairs in zip(xs, ys)}
+
+    @staticmethod
+    def same_pairs(got, exp):
+        if set(map(repr, got)) != set(map(repr, exp)):
+            return False
+        for k in exp:
+            g = sorted(([float(a), float(b)] for a, b in got[k]))
+            e = sorted(([float(a.numerator / a.denominator), float(b.numerator / b.denominator)] for a, b in exp[k]))
+            if g != e:
+                return False
+        return True
+
+    def check_contrast(self, st, rec, fails, tags, coder):
+        call = "raw_contrast(%r,%r,x=%r,l=%r,p=%r,span=%r)" % (st["l1"], st["l2"], st["x"], st["l"], st["p"], st.get("span"))
+        tags.append("contrast:x=%s" % ("index" if st["x"] == "index" else "params"))
+        if st["x"] == "index" and st.get("span") == 0:
+            tags.append("contrast:undefined-span0")
+            return False
+        exp, d = self.contrast_expected(st, rec["pre"])
+        if rec.get("err") == "TypeError" and st["x"] != "index":
+            mixed = isinstance(exp, dict) and len(set(type(k).__name__ for k in exp)) > 1
+            unsortable = not all(coder.sortable(c) for c in aslist(st["x"]))
+            if mixed or unsortable or exp == "unpaired":
+                # raw_contrast sorts its x labels without the str fallback raw_learners has: 'b-a' strings next to plain
+                # values (x not determined by p) or an x column of mixed types make sorted() raise; outside the statement
+                tags.append("contrast:mixed-x-labels")
+                return False
+        if exp == "unpaired":
+            tags.append("contrast:unpaired")
+            return False
+        if exp == "raise":
+            tags.append("contrast:nothing-to-pair")
+            if rec.get("err") != "CobaException":
+                fails.append(F("B", "%s returned %s although there is nothing to pair" % (call, rec.get("table") or rec.get("err")), "contrast:should-raise"))
+            return False
+        if "err" in rec:
+            fails.append(F("B", "%s raised %s (%s); a direct computation gives %s" % (call, rec["err"], rec.get("errmsg"), {str(k): [(str(a), str(b)) for a, b in v] for k, v in exp.items()}), "contrast:raises-" + rec["err"]))
+            return False
+        got = self.contrast_got(rec)
+        if not self.same_pairs(got, exp):
+            kind = "keys" if set(map(repr, got)) != set(map(repr, exp)) else "values"
+            fails.append(F("B", "%s reports %s; pairing the directly computed averages by %s gives %s"
+                           % (call, got, st["p"], {str(k): [(str(a), str(b)) for a, b in v] for k, v in exp.items()}), "contrast:%s-differ" % kind))
+        return sum(len(v) for v in exp.values()) >= 2
 
     # ---- (B) raw_learners
     def check_raw(self, st, rec, fails, tags):
@@ -971,10 +1263,66 @@ class C18(Property):
             ans = ask(driver, {"kind": "fin", "res": res, "n": st.get("n"), "lp": lp})
             impl = {"err": rec["err"]} if "err" in rec else {"ok": model_result(rec["post"], coder)}
             self.cmp_models("where_fin(n=%r,l=%r,p=%r)" % (st.get("n"), l, p), impl, ans, fails, "A:where_fin")
+            if ans["hyp"] and ans["allref"] and canonj(ans["joint"]) != canonj(ans["specJ"]):
+                fails.append(F("C", "model of where_fin with the length step first differs from the joint spec: %s vs %s" % (canonj(ans["joint"])[:300], canonj(ans["specJ"])[:300]), "C:where_fin-joint"))
             if ans["hyp"] and (lp is not None or ans["allref"]) and canonj(ans["model"]) != canonj(ans["spec"]):
                 fails.append(F("C", "model of where_fin differs from its spec although the hypotheses hold: %s vs %s" % (canonj(ans["model"])[:300], canonj(ans["spec"])[:300]), "C:where_fin"))
             if not ans["hyp"]:
                 tags.append("hyp:false")
+            return ans["model"]
+        if op == "raw_contrast":
+            l, x = st["l"], st["x"]
+            lcols = aslist(l)
+            tbl_of = {}
+            for tb, idc in (("env", "environment_id"), ("lrn", "learner_id"), ("val", "evaluator_id")):
+                for c in pre[tb][0]:
+                    tbl_of.setdefault(c, (tb, idc))
+
+            def sel(vals):
+                out = []
+                for c, v in zip(lcols, vals):
+                    tb, idc = tbl_of[c]
+                    cols = [cc for cc in pre[tb][0] if cc != idc]
+                    out.append({"tbl": tb, "j": (None if c == idc else cols.index(c)), "v": (v if c == idc else coder.code(c, v))})
+                return out
+            v1 = [dv(v) for v in st["l1"]] if isinstance(l, (list, tuple)) else [dv(st["l1"])]
+            v2 = [dv(v) for v in st["l2"]] if isinstance(l, (list, tuple)) else [dv(st["l2"])]
+            if not all(isinstance(v, int) and not isinstance(v, bool) for c, v in zip(lcols, v1 + v2) if c in ID_COLS):
+                return None
+            ans = ask(driver, {"kind": "contrast", "res": res, "sel1": sel(v1), "sel2": sel(v2), "p": col_refs(pre, st["p"]),
+                               "x": ("index" if x == "index" else col_refs(pre, x)), "span": st.get("span")})
+            m = ans["model"]
+            if "err" in rec or "err" in m:
+                if rec.get("err") != m.get("err"):
+                    fails.append(F("A", "raw_contrast: implementation %s, model %s" % (rec.get("err") or "table", canonj(m)[:300]), "A:raw_contrast"))
+                return m
+            inv = {c: {code: val for val, code in list(coder.cols[c][0].items()) + list(coder.cols[c][1])} for c in coder.cols}
+
+            def real(cols, key):
+                vals = [(k if (c in ID_COLS or c == "index") else inv[c].get(k)) for c, k in zip(aslist(cols), key)]
+                return tuple(vals) if isinstance(cols, (list, tuple)) else vals[0]
+            exp = {}
+            for x1, x2, pairs in m["ok"]:
+                if x == "index":
+                    lab = x1[0]
+                else:
+                    a, b = real(x, x1), real(x, x2)
+                    lab = a if a == b else "%s-%s" % (b, a)
+                exp.setdefault(lab, []).extend((unq(pq[0]), unq(pq[1])) for pq in pairs)
+            got = self.contrast_got(rec)
+            if not self.same_pairs(got, exp):
+                fails.append(F("A", "raw_contrast(%r,%r,x=%r,l=%r,p=%r,span=%r): implementation %s, model %s" % (st["l1"], st["l2"], x, l, st["p"], st.get("span"), got, {str(k): [(str(a), str(b)) for a, b in v] for k, v in exp.items()}), "A:raw_contrast"))
+            if canonj(ans["model"]) != canonj(ans["spec"]):
+                fails.append(F("C", "model of raw_contrast differs from its spec", "C:raw_contrast"))
+            return m
+        if op == "where_best":
+            ans = ask(driver, {"kind": "best", "res": res, "l": col_refs(pre, st["l"]), "p": col_refs(pre, st["p"]), "n": st.get("n"),
+                               "fl": col_refs(pre, st.get("full_l", "learner_id")), "fp": col_refs(pre, st.get("full_p", "environment_id"))})
+            impl = {"err": rec["err"]} if "err" in rec else {"ok": model_result(rec["post"], coder)}
+            if canonj(impl) != canonj(ans["model"]):
+                fails.append(F("A", "where_best(l=%r,p=%r,n=%r): implementation %s, model %s" % (st["l"], st["p"], st.get("n"), canonj(impl)[:400], canonj(ans["model"])[:400]), "A:where_best"))
+            if ans["hyp"] and canonj(ans["model"]) != canonj(ans["spec"]):
+                fails.append(F("C", "model of where_best differs from its spec: %s vs %s" % (canonj(ans["model"])[:300], canonj(ans["spec"])[:300]), "C:where_best"))
             return ans["model"]
         if op == "where":
             col, arg = st["kw"][0]
@@ -983,7 +1331,7 @@ class C18(Property):
             cols = [c for c in pre[tb][0] if c != idc]
             j = None if col == idc else cols.index(col)
             vals = [dv(x) for x in arg] if isinstance(arg, list) else [dv(arg)]
-            codes = [(v if j is None else coder.code(v)) for v in vals]
+            codes = [(v if j is None else coder.code(col, v)) for v in vals]
             if j is None and not all(isinstance(v, int) for v in vals):
                 return None
             ans = ask(driver, {"kind": "where", "res": res, "tbl": tb, "j": j, "vals": codes})
@@ -1004,7 +1352,7 @@ class C18(Property):
                 def ck(cols, key):
                     out = []
                     for c, v in zip(aslist(cols), key):
-                        out.append(v if (c in ID_COLS or c in ("full_name", "index")) else coder.code(v))
+                        out.append(v if (c in ID_COLS or c in ("full_name", "index")) else coder.code(c, v))
                     return out
                 impl = {"ok": sorted([[ck(l, lk), ck(x, xk), vs] for (lk, xk), vs in got.items()], key=lambda e: json.dumps(e[:2]))}
 
@@ -1028,6 +1376,8 @@ class C18(Property):
             return
         if ci == canonj(ans["legacy"]):
             return      # the code without fixes/C18-group-p-duplicate-level.diff; (B) reports the defect on this very case
+        if "joint" in ans and ci == canonj(ans["joint"]):
+            return      # the code with fixes/C18-length-drop-before-pairing.diff (C18-F3)
         fails.append(F("A", "%s: implementation %s, model %s" % (call, ci[:500], canonj(ans["model"])[:500]), sig))
 
     # ---- moving_average
@@ -1168,8 +1518,12 @@ class C18(Property):
             elif st["op"] == "where":
                 col, arg = st["kw"][0]
                 lines.append("r = r.where(**{%r: %r})" % (col, [dv(x) for x in arg] if isinstance(arg, list) else dv(arg)))
+            elif st["op"] == "raw_contrast":
+                l1 = [dv(v) for v in st["l1"]] if isinstance(st["l"], (list, tuple)) else dv(st["l1"])
+                l2 = [dv(v) for v in st["l2"]] if isinstance(st["l"], (list, tuple)) else dv(st["l2"])
+                lines.append("t = r.raw_contrast(%r, %r, x=%r, y='reward', l=%r, p=%r, span=%r); print(t.columns, list(t))" % (l1, l2, st["x"], st["l"], st["p"], st.get("span")))
             elif st["op"] == "where_best":
-                lines.append("r = r.where_best(l=%r, p=%r, n=%r)" % (st["l"], st["p"], st.get("n")))
+                lines.append("r = r.where_best(l=%r, p=%r, n=%r, full_l=%r, full_p=%r)" % (st["l"], st["p"], st.get("n"), st.get("full_l", "learner_id"), st.get("full_p", "environment_id")))
             else:
                 lines.append("t = r.raw_learners(x=%r, y=%r, l=%r, p=%r, span=%r); print(t.columns, list(t))" % (st["x"], st.get("y", "reward"), st["l"], st.get("p"), st.get("span")))
             lines.append("print([list(t) for t in (r.environments, r.learners, r.evaluators, r.interactions)])")
